@@ -19,9 +19,10 @@
 //   - PROPER on texts with non letters (Python title() vs Go strings.Title treat digits differently)
 //   - FIELD with empty / padded pieces for a non-space delimiter (legacy drops them, new keeps / trims)
 //   - MOD with negative dividend or non-positive divisor, DAYS with later < earlier (legacy error)
-//   - YEAR/MONTH/DAY as the DIRECT left operand of + or - (refDatePartPlusBroken): the migrator infers type
-//     "date" for format_date(...) and emits datetime_add(format_date(x, "D"), 1, "D") which is an error in the
-//     new engine.  A real migration defect but not a grouping one; the generator writes (DAY(x)) + 1 instead.
+//   - a left operand of + or - whose text BEGINS with a YEAR/MONTH/DAY call, e.g. DAY(x) + 1, DAY(x) * 2 - MAX(1)
+//     (refDatePartPlusBroken): the migrator infers type "date" from the leading format_date( and emits
+//     datetime_add(format_date(x, "D") * 2, -max(1), "D"), an error in the new engine.  A real migration defect
+//     but not a grouping one; the generator writes (DAY(x)) + 1 instead.
 package main
 
 import (
@@ -92,7 +93,7 @@ const (
 	refMaxRept = 4
 )
 
-// refDatePartPlusBroken: YEAR/MONTH/DAY(...) written directly as the left operand of + or - is migrated to a
+// refDatePartPlusBroken: a left operand of + or - that begins with YEAR/MONTH/DAY(...) is migrated to a
 // datetime_add on the formatted part (type inference defect, not a grouping defect) -> outside the domain.
 const refDatePartPlusBroken = true
 
@@ -276,13 +277,21 @@ func refEv(t *lt, vars map[string]rval) (rval, bool) {
 	return refNone, false
 }
 
-func refIsDatePartCall(t *lt) bool {
-	if t.K != "call" {
-		return false
-	}
-	switch strings.ToLower(t.S) {
-	case "year", "month", "day":
-		return true
+// refLeadsWithDatePart: the legacy text of t begins with a YEAR/MONTH/DAY call (t is such a call, or a binary
+// operation / SUM / POWER / CONCATENATE whose first operand begins with one).  The migrator infers the type of
+// an operand of + and - from the function name its migrated text begins with, takes format_date(...) [* ...] for
+// a date and emits datetime_add(...) when the other operand is a number.
+func refLeadsWithDatePart(t *lt) bool {
+	switch t.K {
+	case "bin":
+		return refLeadsWithDatePart(t.A[0])
+	case "call":
+		switch strings.ToLower(t.S) {
+		case "year", "month", "day":
+			return true
+		case "sum", "power", "concatenate":
+			return len(t.A) > 0 && refLeadsWithDatePart(t.A[0])
+		}
 	}
 	return false
 }
@@ -308,7 +317,7 @@ func refBin(t *lt, vars map[string]rval) (rval, bool) {
 		}
 		switch t.S {
 		case "+", "-":
-			if refDatePartPlusBroken && refIsDatePartCall(t.A[0]) {
+			if refDatePartPlusBroken && refLeadsWithDatePart(t.A[0]) {
 				return refNone, false
 			}
 			if t.S == "+" {
@@ -791,12 +800,17 @@ func genTyped(r *hx.Rand, typ string, depth int, vars []varDecl) *lt {
 
 func (g *refGen) val(t *lt) (rval, bool) { return refEval(t, g.vm) }
 
+// the value of a number tree (a text of digits counts: both engines convert it), when it is small
 func (g *refGen) intVal(t *lt) (int, bool) {
 	v, ok := g.val(t)
-	if !ok || v.K != "num" || !v.N.IsInt64() || v.N.Int64() > 1000000 || v.N.Int64() < -1000000 {
+	if !ok {
 		return 0, false
 	}
-	return int(v.N.Int64()), true
+	n, ok := refAsNum(v)
+	if !ok || !n.IsInt64() || n.Int64() > 1000000 || n.Int64() < -1000000 {
+		return 0, false
+	}
+	return int(n.Int64()), true
 }
 
 func (g *refGen) textVal(t *lt) (string, bool) {
@@ -930,7 +944,7 @@ func (g *refGen) num(d int) *lt {
 	case "add", "sub":
 		op := map[string]string{"add": "+", "sub": "-"}[p]
 		a, b := g.num(d-1), g.num(d-1)
-		if refDatePartPlusBroken && refIsDatePartCall(a) {
+		if refDatePartPlusBroken && refLeadsWithDatePart(a) {
 			a = lParen(a)
 		}
 		return mkBin(op, a, b)
@@ -1193,7 +1207,7 @@ func (g *refGen) small(lo, hi, d int) *lt {
 
 // x + k in one of its legacy spellings (x + k, k + x, x - -k, SUM(x, k), SUM(k, x))
 func (g *refGen) plus(x *lt, k, d int) *lt {
-	if refDatePartPlusBroken && refIsDatePartCall(x) {
+	if refDatePartPlusBroken && refLeadsWithDatePart(x) {
 		x = lParen(x)
 	}
 	kt := func(k int) *lt {
@@ -1233,6 +1247,17 @@ func (g *refGen) offset(v, d int) *lt {
 		return mkBin("-", refIntLit(v+vx), x)
 	}
 	return g.plus(x, v-vx, d)
+}
+
+// a number tree whose value is a number (not a text of digits): = and <> do not convert
+func (g *refGen) strictNum(d int) *lt {
+	for try := 0; try < 3 && d > 0; try++ {
+		x := g.num(d)
+		if v, ok := g.val(x); ok && v.K == "num" {
+			return x
+		}
+	}
+	return g.numLeaf()
 }
 
 // ---- texts
@@ -1441,16 +1466,19 @@ func (g *refGen) boolean(d int) *lt {
 		return mkBin(hx.Pick(g.r, []string{"<", "<=", ">", ">="}), g.num(d-1), g.num(d-1))
 	case "eqnum":
 		op := hx.Pick(g.r, []string{"=", "<>"})
-		a := g.num(d - 1)
+		a := g.strictNum(d - 1)
 		if va, ok := g.intVal(a); ok && g.r.Chance(1, 3) {
 			// same value, another tree
 			b := g.small(va, va, d-1)
+			if vb, ok := g.val(b); !ok || vb.K != "num" {
+				b = refIntLit(va)
+			}
 			if g.r.Bool() {
 				a, b = b, a
 			}
 			return mkBin(op, a, b)
 		}
-		return mkBin(op, a, g.num(d-1))
+		return mkBin(op, a, g.strictNum(d-1))
 	case "eqtext":
 		op := hx.Pick(g.r, []string{"=", "<>"})
 		a := g.lowerText(d - 1)
